@@ -449,7 +449,7 @@ side!(c20_side_uncertain_of_rival, "uncertain", true);
 
 // scores never decrease when a group's strongest confidence rises (f64 monotonicity of
 // 1 - (1-c)(1-d): a hard bit-level query; thorough tier, reported not decided if it does not fit)
-// @check id=C20 tier=thorough cap=1500 mem=24 role=monotone_in_confidence
+// @check id=C20 tier=thorough cap=600 role=monotone_in_confidence
 // @fns projection::aggregate
 // @bound two independent supporters; the first one's confidence raised from c to c' >= c; all any f64 in [0,1]
 // @stubs alloc::fmt::format -> positional model
@@ -555,7 +555,8 @@ fn c20_order_independence_on_witness_table() {
     std::mem::forget((policy, l1, l2));
 }
 
-// @check id=C20 tier=thorough cap=1500 mem=24 role=order_independence_three_groups
+// (SAT in 38 s when the defect is present; an UNSAT multiplier-equivalence proof when it is not: may not be decided)
+// @check id=C20 tier=thorough cap=600 role=order_independence_three_groups
 // @fns projection::aggregate
 // @bound three independent supporters (three distinct actors, no evidence), confidences any f64 in [0,1]; recording orders (1,2,3) and (3,1,2)
 // @stubs alloc::fmt::format -> positional model
@@ -571,7 +572,7 @@ fn c20_aggregate_score_independent_of_recording_order() {
     kani::cover!(s1 > 0.5 && s1 < 1.0, "non-trivial score");
 }
 
-// @check id=C20 tier=thorough cap=1500 mem=24 role=status_independent_of_order_three_groups
+// @check id=C20 tier=thorough cap=600 role=status_independent_of_order_three_groups
 // @fns projection::aggregate, projection::classify
 // @bound as above, classified under the baseline policy (accept 0.7, material 0.3) with no opposition
 // @stubs alloc::fmt::format -> positional model
